@@ -537,6 +537,133 @@ func C04Exemption(levels map[string]*PlatLevel) (tag, reason string) {
 	return "", ""
 }
 
+// PlatformPackageState lists package-level variables of package platform (non-test files) that
+// can carry state from one load to the next: variables holding a map, slice, pointer, channel,
+// sync primitive or made / composite value, and variables assigned (directly, by index or by
+// field) inside a function body. Constants and variables initialised by a plain call such as
+// errors.New are not state. The current tree has none: a load reads the embedded bytes and parses
+// them afresh.
+func PlatformPackageState() []string {
+	files := ParseDir(filepath.Join(Repo, "platform"))
+	vars := map[string]string{} // name -> reason ("" = harmless so far)
+	mutableType := func(e ast.Expr) string {
+		switch t := e.(type) {
+		case *ast.MapType:
+			return "map"
+		case *ast.ArrayType:
+			if t.Len == nil {
+				return "slice"
+			}
+		case *ast.StarExpr:
+			return "pointer"
+		case *ast.ChanType:
+			return "channel"
+		case *ast.SelectorExpr:
+			if id, ok := t.X.(*ast.Ident); ok && id.Name == "sync" {
+				return "sync." + t.Sel.Name
+			}
+		}
+		return ""
+	}
+	mutableValue := func(e ast.Expr) string {
+		switch v := e.(type) {
+		case *ast.CompositeLit:
+			if r := mutableType(v.Type); r != "" {
+				return r + " literal"
+			}
+			return "composite literal"
+		case *ast.UnaryExpr:
+			return "address of a value"
+		case *ast.CallExpr:
+			if id, ok := v.Fun.(*ast.Ident); ok && (id.Name == "make" || id.Name == "new") {
+				return id.Name + "(…)"
+			}
+		}
+		return ""
+	}
+	for _, fn := range SortedNames(files) {
+		for _, d := range files[fn].Decls {
+			gd, ok := d.(*ast.GenDecl)
+			if !ok || gd.Tok.String() != "var" {
+				continue
+			}
+			for _, sp := range gd.Specs {
+				vs := sp.(*ast.ValueSpec)
+				for i, n := range vs.Names {
+					if n.Name == "_" {
+						continue
+					}
+					reason := ""
+					if vs.Type != nil {
+						reason = mutableType(vs.Type)
+					}
+					if reason == "" && i < len(vs.Values) {
+						reason = mutableValue(vs.Values[i])
+					}
+					vars[n.Name] = reason
+				}
+			}
+		}
+	}
+	root := func(e ast.Expr) string {
+		for {
+			switch x := e.(type) {
+			case *ast.Ident:
+				return x.Name
+			case *ast.IndexExpr:
+				e = x.X
+			case *ast.SelectorExpr:
+				e = x.X
+			case *ast.StarExpr:
+				e = x.X
+			case *ast.ParenExpr:
+				e = x.X
+			default:
+				return ""
+			}
+		}
+	}
+	for _, fn := range SortedNames(files) {
+		for _, d := range files[fn].Decls {
+			fd, ok := d.(*ast.FuncDecl)
+			if !ok || fd.Body == nil {
+				continue
+			}
+			ast.Inspect(fd.Body, func(n ast.Node) bool {
+				mark := func(e ast.Expr) {
+					if r := root(e); r != "" {
+						if reason, isVar := vars[r]; isVar && !strings.Contains(reason, "assigned in") {
+							if reason != "" {
+								reason += ", "
+							}
+							vars[r] = reason + "assigned in " + fd.Name.Name
+						}
+					}
+				}
+				switch st := n.(type) {
+				case *ast.AssignStmt:
+					if st.Tok.String() != ":=" {
+						for _, l := range st.Lhs {
+							mark(l)
+						}
+					}
+				case *ast.IncDecStmt:
+					mark(st.X)
+				}
+				return true
+			})
+		}
+	}
+	var out []string
+	for n, reason := range vars {
+		if reason != "" {
+			out = append(out, n+": "+reason)
+		}
+	}
+	sort.Strings(out)
+	return out
+}
+
 // ---- struct-tag agreement ----------------------------------------------------------------------
 
 // repoStructTags reads `yaml:"..."` tags of a struct type from the source.
@@ -903,7 +1030,9 @@ func GenPlatforms() string {
 	b.WriteString("def exampleFile : String := " + leanStr(ExamplePlatformFile) + "\n")
 	mm := TagMismatches()
 	b.WriteString("/-- yaml struct tags on which platform.Definition / Platform / optionDefinition / network.PrivilegeLevel\n    differ from the translator's mirror structs (empty = the YAML below was decoded as the code decodes it) -/\n")
-	b.WriteString("def tagMismatches : List String := " + leanStrList(mm) + "\n\n")
+	b.WriteString("def tagMismatches : List String := " + leanStrList(mm) + "\n")
+	b.WriteString("/-- package-level variables of package platform that can carry state from one load to the next\n    (map / slice / pointer / sync values, or assigned inside a function); go/ast over platform/*.go -/\n")
+	b.WriteString("def packageState : List String := " + leanStrList(PlatformPackageState()) + "\n\n")
 	b.WriteString("-- rune classes shared by the pattern terms\n")
 	b.WriteString(strings.Join(h.defs, "\n"))
 	b.WriteString("\n\n")
